@@ -322,6 +322,59 @@ NAMES = ["plain.bin", "pass%2042.pkts", "cal_50%.pkts", "dump_%s.bin", "100%d.bi
          "-v.bin", "--packet", "back\\slash.bin"]
 
 
+def _task_unrecognized(task):
+    """Files in which some packets are not defined by the document (unknown APIDs between the known ones): the parse command lists and indexes
+    the packets the definition yields, i.e. the recognised ones, and an index beyond those gets the out-of-range message."""
+    from mc.spec import Cmp, Container, Doc, header_entries, header_params, header_ptypes, render_xml
+    t = Tally()
+    work = task["work"]
+    os.makedirs(work, exist_ok=True)
+    doc = Doc(header_ptypes(), header_params(), (Container("CCSDSPacket", header_entries(), abstract=True),
+                                                 Container("KNOWN", (), base="CCSDSPacket", criteria=(Cmp("PKT_APID", "<", "500"),))))
+    xtce = os.path.join(work, f"c19u_{os.getpid()}.xml")
+    with open(xtce, "wb") as f:
+        f.write(render_xml(doc))
+    path = os.path.join(work, f"c19u_{os.getpid()}.bin")
+    import itertools
+    for n in task["ns"]:
+        for pattern in itertools.product((0, 1), repeat=n):     # 1 = a known packet, 0 = an unknown one
+            pk, rec = [], []
+            for i, known in enumerate(pattern):
+                apid = 100 + i if known else 900 + i
+                pk.append(framing.mk_packet(bytes([0xB0 + i]), apid=apid, seqcount=i))
+                if known:
+                    rec.append(apid)
+            with open(path, "wb") as f:
+                f.write(b"".join(pk))
+            code, exc, out = invoke(["parse", path, xtce])
+            t.evals += 1
+            shown = [int(x) for x in re.findall(r"'PKT_APID':\s*(\d+)", out)]
+            case = {"unrecognized": True, "pattern": list(pattern)}
+            if code != 0 or exc:
+                t.violation({"kind": "cli-crash", "cmd": "parse-all", "exit": str(code), "exc": exc, "unrecognized": True}, {**case, "cmd": "parse"}, observed=out[-300:])
+            elif shown != rec:
+                t.violation({"kind": "parse-all-wrong", "unrecognized": True}, {**case, "cmd": "parse"}, expected=rec, observed=shown)
+            for i in range(len(rec) + 2):
+                code, exc, out = invoke(["parse", path, xtce, "--packet", str(i)])
+                t.evals += 1
+                t.nontrivial += 1
+                shown = [int(x) for x in re.findall(r"'PKT_APID':\s*(\d+)", out)]
+                c2 = {**case, "cmd": "parse", "index": i}
+                if code != 0 or exc:
+                    t.violation({"kind": "cli-crash", "cmd": "parse", "exit": str(code), "exc": exc, "unrecognized": True}, c2, observed=out[-300:])
+                elif i < len(rec) and shown != [rec[i]]:
+                    t.violation({"kind": "parse-shows-wrong-packet", "unrecognized": True}, c2, expected=[rec[i]], observed=shown[:5],
+                                note="the index counts the packets the command lists (the recognised ones)")
+                elif i >= len(rec) and (shown or not out.strip()):
+                    t.violation({"kind": "parse-out-of-range-not-reported", "unrecognized": True}, c2, observed=out[-300:])
+    for pth in (path, xtce):
+        try:
+            os.unlink(pth)
+        except OSError:
+            pass
+    return t
+
+
 def anyfiles(tier):
     import itertools
     u = units()
@@ -359,6 +412,7 @@ def run(ctx):
     tally.merge(fan_out(_task_anyfile, [{"files": ch, "work": ctx.work} for ch in chunked(files, 24)], jobs=ctx.jobs, seed=ctx.seed, mem_gib=6.0))
     tally.merge(fan_out(_task_options, [{"ns": [n], "work": ctx.work} for n in ((0, 1, 3, 10, 11, 25) if ctx.quick else range(0, 27))]
                         + [{"ns": [], "work": ctx.work, "names": [nm]} for nm in NAMES], jobs=ctx.jobs, seed=ctx.seed, mem_gib=6.0))
+    tally.merge(fan_out(_task_unrecognized, [{"ns": [n], "work": ctx.work} for n in (range(0, 6) if ctx.quick else range(0, 9))], jobs=ctx.jobs, seed=ctx.seed, mem_gib=6.0))
     coverage = {
         "exhaustive": True,
         "bound": (f"files of n = {'0..13, 22, 25' if ctx.quick else '0..26 and 40'} packets, each also with 3 and 7 trailing bytes of an incomplete packet; "
@@ -366,6 +420,7 @@ def run(ctx):
                   f"'any file': every sequence of <= {3 if ctx.quick else 5} units over 6 units (3 packets with extreme header values, stray bytes, a header promising more than follows), "
                   f"every byte string of <= {6 if ctx.quick else 9} bytes over {{00, FF, 08}}, long files with garbage at the front/tail, a maximum-size packet ({len(files)} files), each through "
                   "describe-packets, parse, parse --packet {0, last, last+1} against the greedy framing model; group options -q / -v / --log-level and --max-items 7..50; "
+                  f"every arrangement of known and unknown packets in files of <= {5 if ctx.quick else 8} packets against a document that defines only the known ones, parse and parse --packet i for every i; "
                   f"{len(NAMES)} file and directory names containing %, braces, brackets (rich markup), spaces, quotes, non-ASCII and option-like names x 4 logging configurations x both commands"),
         "rule": "one evaluation = one CLI invocation through click's runner; distinct non-trivial = distinct (command, file, index) invocations",
     }
@@ -383,6 +438,9 @@ def replay(case):
             if v["case"].get("cmd") == case.get("cmd") and v["case"].get("index") == case.get("index"):
                 return v
         return None
+    if case.get("unrecognized"):
+        t = _task_unrecognized({"ns": [len(case["pattern"])], "work": work})
+        return next((v for v in t.violations if v["case"].get("pattern") == case["pattern"] and v["case"].get("index") == case.get("index")), None)
     if "file_name" in case:
         t = _task_options({"ns": [], "work": work, "names": [case["file_name"]]})
         for v in t.violations:
